@@ -1,5 +1,6 @@
 """Bounded stand-ins (run-time evaluation of the contracts on the real code, small-scope / sampled).
 They are the second line when an obligation is undecided on changed code and are NEVER counted as proved."""
+from pyvc import source
 import itertools
 import math
 import os
@@ -294,7 +295,7 @@ def write_library(dirname, filename, units, groups, include=(), scheme_from='Xie
     os.makedirs(dirname, exist_ok=True)
     sch = os.path.join(dirname, 'scheme.yaml')
     if not os.path.exists(sch):
-        shutil.copy(os.path.join('/repo/pgradd/data', scheme_from, 'scheme.yaml'), sch)
+        shutil.copy(os.path.join(source.DATA_DIR, scheme_from, 'scheme.yaml'), sch)
     lines = []
     if units is not None:
         lines.append('units:')
